@@ -523,6 +523,10 @@ func mine(dir string, minN, maxN, nm, level int) (map[string]interface{}, error)
 				if len(leaf) == 0 {
 					break
 				}
+				// stop one level before nothing is left, so that TLC still decides the
+				// outermost nesting structure instead of the miner
+				next := map[int][]rstep{}
+				left := 0
 				for _, ti := range tis {
 					var o []rstep
 					for _, st := range reds[ti] {
@@ -530,7 +534,14 @@ func mine(dir string, minN, maxN, nm, level int) (map[string]interface{}, error)
 							o = append(o, st)
 						}
 					}
-					reds[ti] = dropUnnested(o)
+					next[ti] = dropUnnested(o)
+					left += len(next[ti])
+				}
+				if left == 0 {
+					break
+				}
+				for ti, o := range next {
+					reds[ti] = o
 				}
 			}
 		}
